@@ -106,7 +106,20 @@ class VLoop(asyncio.SelectorEventLoop):
         tr = FakeTransport(self, proto, len(self.endpoints) + 1)
         tr.kw = kw
         self.endpoints.append(tr)
-        proto.connection_made(tr)
+        # as the selector loop does: connection_made is called on the next pass and the creating coroutine resumes after it (one real
+        # suspension inside the call); an exception thrown into the wait (a cancellation) closes the transport again
+        waiter = self.create_future()
+
+        def made():
+            proto.connection_made(tr)
+            if not waiter.done():
+                waiter.set_result(None)
+        self.call_soon(made)
+        try:
+            await waiter
+        except BaseException:
+            tr.close()
+            raise
         return tr, proto
 
     def jump(self, dt):
